@@ -576,6 +576,13 @@ class MinFlowDecomp(pathmodel.AbstractPathModelDAG): # Note that we inherit from
         # The synthetic source/sink edges of stG need not be covered either
         self._lowerbound_k = max(self._lowerbound_k, stG.get_width(edges_to_ignore=list(ignored_edges) + list(stG.source_sink_edges)))
 
+        # The optional bounds below hand the flow values to other models (MinGenSet, sub-instances) before any k-model
+        # has validated them: reject negative values here, with the error the k-models would raise.
+        for u, v, data in self.G.edges(data=True):
+            if (u, v) not in ignored_edges and data.get(self.flow_attr, 0) < 0:
+                utils.logger.error(f"{__name__}: Edge ({u},{v}) has negative flow value {data[self.flow_attr]}. All flow values must be >=0.")
+                raise ValueError(f"Edge ({u},{v}) has negative flow value {data[self.flow_attr]}. All flow values must be >=0.")
+
         # The min-gen-set bound reasons about the flow values of ALL weighted edges and the total source flow;
         # it is only valid when none of the weighted edges is ignored.
         ignores_weighted_edges = any(self.G.has_edge(*e) and self.flow_attr in self.G.edges[e] for e in self.edges_to_ignore)
